@@ -122,10 +122,13 @@ def run(ctx):
                        "surrogate, > U+10FFFF, truncated), empty; indices negative/zero/beyond length; compared byte-exact (hex) between mlr and the Coq model under "
                        "vm_compute; oracle: independent python implementations, hashlib/base64/re/%-formatting, inverse identities on mlr's own outputs")
     ctx.cov["trusted_base"] = ["Coq 8.16.1 kernel + vm_compute", "no axioms", "python harness",
-                               "Go unicode/utf8 decoding transliterated into the model, tied by correspondence", "strings.ToUpper/ToLower modelled on ASCII + caseless characters only"]
-    ctx.assumptions = ["regex functions, hashes, base64, latin1, printf verbs: oracle comparison only (no Coq model): partial",
+                               "Go unicode/utf8 decoding transliterated into the model, tied by correspondence", "strings.ToUpper/ToLower modelled on ASCII + caseless characters only",
+                               "Go encoding/base64, fmt (one directive) and strconv fixed-precision rendering modelled, tied by correspondence"]
+    ctx.assumptions = ["regex functions (sub/gsub/regextract/=~ captures) and the sub/gsub verbs: oracle comparison with python re only (no Coq model): partial",
+                       "printf: %g/%G, %_d/%_f, '#' on floats, '*'/'[n]', format-values/--ofmt are outside the Coq model (oracle only or not run); decimal text -> binary64 is done by the harness (struct.pack)",
+                       "digest models are the standards (RFC 1321, FIPS 180-4) in Gallina, pinned by their test vectors; no cryptographic claim",
                        "full Unicode case mapping is outside the model"]
-    forbidden_gate(ctx, ["Base", "C15"])
+    forbidden_gate(ctx, ["Base", "C15"])   # includes ModelCodec/ModelHash/ModelFmt/ModelVerbs and their proofs
     ok, why = check_props(ctx, "C15/Props.v", ["C15/Harness.vo", "C15/Harness2.vo", "C15/Proofs.vo", "C15/Utf8Proofs.vo", "C01/ProofsJson.vo"])
     rng = ctx.rng
     terms, meta, oracle_bad = [], [], []
